@@ -68,3 +68,23 @@ def concrete_inputs(model):
     labels = [str(x) for x in model.get('labels', [])]
     labels = [f'{l}#{i}' for i, l in enumerate(labels)]
     return dict(store=_StubStore(), config=_StubConfigMap(), labels=iter(list(labels)), max_persist=model.get('max_persist'), _labels=labels)
+
+
+# ---- C17: stale-file detection.  mtimes are opaque values: only (in)equality is used by the code and by the property ------------
+STORE = 'static_frame/core/store.py'
+from . import RECORDS
+RECORDS.setdefault('Store', dict(_fp='elem', _last_modified='elem'))
+contract(STORE, 'Store._mtime_coherent',
+    props=['C17'],
+    params=dict(self='Store'), order=['self'],
+    calls={
+        # ASSUMED models of the OS / NumPy calls: pure functions of their argument at the time of the call
+        'os.path.exists': dict(params=dict(p='elem'), order=['p'], result='bool', ensures=['result == ube("exists", p)']),
+        'os.path.getmtime': dict(params=dict(p='elem'), order=['p'], result='elem', ensures=['result == ufe("mtime", p)']),
+        'np.isnan': dict(params=dict(x='elem'), order=['x'], result='bool', ensures=['result == ube("isnan", x)']),
+    },
+    # the next read raises the store-mutation error iff the file is there with ANY other modification time than the one
+    # recorded (newer or older), or is gone although a time had been recorded
+    raises={'StoreFileMutation': '(ube("exists", self._fp) and ufe("mtime", self._fp) != self._last_modified) or '
+                                 '(not ube("exists", self._fp) and not ube("isnan", self._last_modified))'},
+    ensures=['True'])
